@@ -8,6 +8,7 @@ import (
 	"runtime"
 	"strings"
 	"sync"
+	"sync/atomic"
 	"time"
 
 	"golang.org/x/tools/go/packages"
@@ -28,6 +29,7 @@ type Options struct {
 	Unwind          int
 	MaxSteps        int
 	MaxPaths        int
+	StartPrefix     []int64 // debugging: explore only below this decision prefix
 	Budget          time.Duration
 	QueryTimeoutMs  int
 	KeepSamples     int
@@ -51,6 +53,8 @@ type World struct {
 	intr      map[string]intrinsicFn
 	intrPref  []prefIntr
 	buildMu   sync.Mutex
+	builtPkgs sync.Map // *ssa.Package -> true once Build() has returned
+	retries, retriesResolved atomic.Int64 // unknown answers retried in a fresh context / of those decided
 	qmu       sync.Mutex
 	qcond     *sync.Cond
 	queue     []*job
@@ -153,17 +157,39 @@ func (w *World) pos(p token.Pos) string {
 	return fmt.Sprintf("%s:%d", ps.Filename, ps.Line)
 }
 
+// ensureBuilt makes sure the SSA body of fn is complete before a worker reads it.
+// Package builds run one at a time under buildMu. fn.Blocks must not be used as
+// the "already built" test: while another worker is building fn's package the
+// builder fills Blocks incrementally (and only removes its provisional
+// ssa:deferstack call when the body is finished), so a half-built body would be
+// executed. The per-package done set is the only fast path.
+func (w *World) noteRetry(resolved bool) {
+	w.retries.Add(1)
+	if resolved {
+		w.retriesResolved.Add(1)
+	}
+}
+
 func (w *World) ensureBuilt(fn *ssa.Function) {
-	w.buildMu.Lock()
-	defer w.buildMu.Unlock()
-	if fn.Blocks != nil {
+	p := fn.Pkg
+	if p == nil {
+		if o := fn.Origin(); o != nil {
+			p = o.Pkg
+		}
+	}
+	if p == nil {
+		// synthetic wrappers are created and finished under buildMu: wait for it
+		w.buildMu.Lock()
+		w.buildMu.Unlock()
 		return
 	}
-	if fn.Pkg != nil {
-		fn.Pkg.Build()
-	} else if o := fn.Origin(); o != nil && o.Pkg != nil {
-		o.Pkg.Build()
+	if _, ok := w.builtPkgs.Load(p); ok {
+		return
 	}
+	w.buildMu.Lock()
+	p.Build()
+	w.buildMu.Unlock()
+	w.builtPkgs.Store(p, true)
 }
 
 func (w *World) lookupMethod(t types.Type, m *types.Func) *ssa.Function {
